@@ -24,11 +24,17 @@ class Outcome:
     signature: Optional[str] = None
     detail: Any = None
     reason: Optional[str] = None   # for rejected
+    n: int = 1                     # evaluations this outcome stands for (blocks)
+    nt: Optional[int] = None       # distinct non-trivial cases in the block
 
 
-def ok(label=None):
-    """The property held on this case; label names its non-trivial class."""
-    return Outcome("ok", label=label)
+def ok(label=None, n=1, nt=None):
+    """The property held on this case; label names its non-trivial class.
+
+    A case may be a *block* of n raw inputs enumerated inside run() (cheap pure
+    functions over big finite domains): pass n = inputs evaluated and nt = how
+    many of them were non-trivial (distinct by construction)."""
+    return Outcome("ok", label=label, n=n, nt=nt)
 
 
 def trivial():
